@@ -101,6 +101,10 @@ structure USample where
   cpu : Nat
   /-- callee-most first, as `get_sample_stack` builds it -/
   stack : List SFrame
+  /-- ghost (not part of the code's state, never read by the model's outputs): the pid / tid of the SAMPLE
+  record this entry was created from; used to state the tagging invariant of C01 -/
+  gpid : Nat := 0
+  gtid : Nat := 0
 deriving Repr, DecidableEq
 
 structure ThreadC where
@@ -414,7 +418,7 @@ def step (s : St) : Rec → St
     let th := { th with lastTs := some t }
     let p := putThread p tid th
     let u : USample := { th := th.h, t := conv s t, tmono := t, cpu := period,
-                         stack := sampleStack s.cfg km ip chain }
+                         stack := sampleStack s.cfg km ip chain, gpid := pid, gtid := tid }
     putProc s { p with samples := p.samples ++ [u] }
   | .fork pid tid ppid ptid t =>
     let start := conv s t
